@@ -59,7 +59,7 @@ def _dnsname_match(
         # When '*' is a fragment by itself, it matches a non-empty dotless
         # fragment.
         pats.append("[^.]+")
-    elif leftmost.startswith("xn--") or hostname.startswith("xn--"):
+    elif leftmost.lower().startswith("xn--") or hostname.lower().startswith("xn--"):
         # RFC 6125, section 6.4.3, subitem 3.
         # The client SHOULD NOT attempt to match a presented identifier
         # where the wildcard character is embedded within an A-label or
